@@ -391,6 +391,75 @@ pub fn run_c05(ctx: &Ctx) -> Report {
             rep.monitor_case(k as u64, got.is_ok());
         }
     }
+    // addresses whose canonical bump is far below 255 (found once by a 72M-seed search: seeds "vault" and a
+    // little-endian u64, program id [7; 32]); the bump recorded here is re-derived on every run
+    {
+        const LOW_BUMPS: &[(u8, u64)] = &[(230, 5378174), (231, 48565726), (232, 17549726), (233, 10609470), (234, 2829504), (235, 5509377), (236, 647219), (237, 115175), (238, 30859), (239, 18432), (240, 58907), (241, 35149), (242, 28296), (243, 35518), (244, 2108), (245, 7), (246, 94), (247, 1522), (248, 442), (249, 70)];
+        let program = Pubkey::new_from_array([7u8; 32]);
+        for (bump, counter) in LOW_BUMPS {
+            let data = counter.to_le_bytes().to_vec();
+            let found = Pubkey::try_find_program_address(&[b"vault", &data], &program);
+            if found.map(|x| x.1) != Some(*bump) {
+                rep.violate("low-bump-corpus", "harness corpus entry does not have its recorded canonical bump", serde_json::json!({"counter": counter}).to_string());
+            }
+            let e = ExtraAccountMeta::new_with_seeds(&[Seed::Literal { bytes: b"vault".to_vec() }, Seed::InstructionData { index: 0, length: 8 }], false, true).unwrap();
+            let got = real_resolve(&e, &data, &program, &[]);
+            let want = oracle_resolve(&e, &data, &program, &[]);
+            rep.count("resolve:low-canonical-bump");
+            rep.monitor_runs += 1;
+            if !matches!((&got, &want), (Res::Ok(m), Some(x)) if m == x) {
+                rep.violate("resolve-low-bump", "a PDA whose canonical bump is far below 255 does not resolve to the canonical address",
+                    serde_json::json!({"seeds": ["vault", emit::hex(&data)], "program_id": program.to_string(), "canonical_bump": bump, "observed": format!("{:?}", got), "expected": format!("{:?}", want)}).to_string());
+            }
+            if *bump >= 244 {
+                rep.case(format!("CPda {} {} {}", emit::list(&[emit::blob(b"vault"), emit::blob(&data)]), e_key(&program),
+                    emit::option(found.map(|(k, b)| format!("({}, {})", e_key(&k), b)))), true);
+            }
+        }
+    }
+    // back-to-back resolutions whose seeds concatenate to the same bytes but are cut differently
+    // (anything remembered between calls and keyed on too little would answer the second from the first)
+    for _ in 0..ctx.scale(300, 3000) {
+        let w = gen_world(&mut rng);
+        let mut w = w;
+        if w.ix.len() < 70 {
+            let l = 70 + rng.below(30) as usize;
+            w.ix = rng.bytes(l);
+        }
+        let start = rng.below(4) as u8;
+        let a = rng.range(2, 32) as u8;
+        let b = rng.range(1, 32) as u8;
+        let shift: i8 = *rng.pick(&[-1i8, 1, -2, 2]);
+        let a2 = (a as i16 + shift as i16) as u8;
+        let b2 = (b as i16 - shift as i16) as u8; // may become 33: a seed that is too long, an error
+        let accts: Vec<(Pubkey, Option<Vec<u8>>)> = vec![(w.keys[0], Some(w.ix.clone()))];
+        let mk = |x: u8, y: u8, from_account: bool| -> Vec<Seed> {
+            if from_account {
+                vec![Seed::AccountData { account_index: 0, data_index: start, length: x }, Seed::AccountData { account_index: 0, data_index: start + x, length: y }]
+            } else {
+                vec![Seed::InstructionData { index: start, length: x }, Seed::InstructionData { index: start + x, length: y }]
+            }
+        };
+        let from_account = rng.chance(1, 2);
+        let (s, wr) = (rng.chance(1, 2), rng.chance(1, 2));
+        let c1 = ExtraAccountMeta::new_with_seeds(&mk(a, b, from_account), s, wr);
+        let c2 = ExtraAccountMeta::new_with_seeds(&mk(a2, b2, from_account), s, wr);
+        if let (Ok(c1), Ok(c2)) = (c1, c2) {
+            for (first, second) in [(&c1, &c2), (&c2, &c1)] {
+                let _ = real_resolve(first, &w.ix, &w.pid, &accts);
+                let got = real_resolve(second, &w.ix, &w.pid, &accts);
+                let want = oracle_resolve(second, &w.ix, &w.pid, &accts);
+                rep.count("resolve:same-bytes-other-cut");
+                rep.monitor_runs += 1;
+                let ok = match (&got, &want) { (Res::Ok(m), Some(x)) => m == x, (Res::Err(_), None) => true, _ => false };
+                if !ok {
+                    rep.violate("resolve-after-sibling", "a resolution made right after one whose seeds concatenate to the same bytes (cut elsewhere) differs from the prescribed result",
+                        serde_json::json!({"first_config": emit::hex(bytemuck::bytes_of(first)), "second_config": emit::hex(bytemuck::bytes_of(second)), "data": emit::hex(&w.ix), "program_id": w.pid.to_string(),
+                            "observed": format!("{:?}", got), "expected": format!("{:?}", want)}).to_string());
+                }
+            }
+        }
+    }
     // constructors store exactly the information given
     for _ in 0..ctx.scale(2000, 20000) {
         let seeds = crate::c11::gen_seed_list(&mut rng);
@@ -517,6 +586,17 @@ pub fn gen_scenario(rng: &mut Rng, precondition: bool) -> Scenario {
             _ => { d.is_writable = (d.is_writable.0 == 0).into(); }
         }
         cfgs[j] = d;
+        // a third occurrence, alternating again (writable, read-only, writable ...)
+        if cfgs.len() >= 3 && rng.chance(1, 2) {
+            let k = (0..cfgs.len()).find(|x| *x != i && *x != j).unwrap();
+            let mut d3 = cfgs[i];
+            if rng.chance(1, 2) {
+                d3.is_writable = cfgs[i].is_writable;
+            } else {
+                d3.is_writable = (cfgs[j].is_writable.0 == 0).into();
+            }
+            cfgs[k] = d3;
+        }
     }
     // the pool: all universe keys (so PDAs are usually missing unless precondition pads them in later)
     let mut pool: Vec<Acct> = w.keys.iter().zip(datas.iter()).map(|(k, d)| Acct { key: *k, signer: rng.chance(1, 4), writable: rng.chance(1, 2), data: d.clone() }).collect();
@@ -657,6 +737,17 @@ pub fn run_check(accounts: &[Acct], ix: &[u8], pid: &Pubkey, tlv: &[u8]) -> Res<
     catch(|| ExtraAccountMetaList::check_account_infos::<MT0>(&infos, ix.bytes(), pid, tlv.bytes()))
 }
 
+/// the same check while one provided account's data is mutably borrowed by the caller
+pub fn run_check_borrowed(accounts: &[Acct], ix: &[u8], pid: &Pubkey, tlv: &[u8], idx: usize) -> Res<()> {
+    let owner = Pubkey::new_from_array([9u8; 32]);
+    let mut store: Vec<(Pubkey, u64, Vec<u8>, bool, bool)> = accounts.iter().map(|a| (a.key, 1u64, a.data.clone(), a.signer, a.writable)).collect();
+    let infos: Vec<AccountInfo> = store.iter_mut().map(|(k, l, d, s, w)| AccountInfo::new(k, *s, *w, l, &mut d[..], &owner, false)).collect();
+    let guard = infos[idx].try_borrow_mut_data().unwrap();
+    let r = catch(|| ExtraAccountMetaList::check_account_infos::<MT0>(&infos, ix, pid, tlv));
+    drop(guard);
+    r
+}
+
 fn e_metas(ms: &[AccountMeta]) -> String {
     emit::list(&ms.iter().map(e_meta).collect::<Vec<_>>())
 }
@@ -706,6 +797,22 @@ pub fn run_c06_c08(ctx: &Ctx, prop: &str) -> Report {
         let pre = prop == "C08" || rng.chance(2, 3);
         let mut sc = gen_scenario(&mut rng, pre);
         let mut with_tail = false;
+        // C06 does not assume that the caller's account infos mirror the instruction's metas: other order,
+        // fewer infos, other flags -- the privileges are decided by the metas alone
+        if prop == "C06" && !pre && !sc.initial.is_empty() && rng.chance(1, 2) {
+            match rng.below(4) {
+                0 => sc.initial.reverse(),
+                1 => { let l = sc.initial.len(); sc.initial.rotate_left(1 % l); }
+                2 => { sc.initial.pop(); }
+                _ => {}
+            }
+            for a in sc.initial.iter_mut() {
+                if rng.chance(1, 2) {
+                    a.writable = !a.writable;
+                }
+            }
+            rep.count("cpi-infos:not-mirroring-metas");
+        }
         // stored data with something behind the entry: zero padding (fine), a short non-zero tail or an
         // entry whose length runs past the end (malformed: both helpers must refuse), garbage behind a terminator (fine)
         if rng.chance(1, 8) {
@@ -875,6 +982,17 @@ pub fn run_c07(ctx: &Ctx) -> Report {
             let keep = rng.below(sc.cfgs.len() as u64) as usize;
             variants.push(("short-list", accepted[..keep.min(accepted.len())].to_vec()));
         }
+        if !accepted.is_empty() && !sc.cfgs.is_empty() && rng.chance(1, 6) {
+            // an account whose data the caller still holds mutably: an error, never a panic
+            let idx = rng.below(accepted.len() as u64) as usize;
+            let r = run_check_borrowed(&accepted, &sc.w.ix, &sc.w.pid, &sc.tlv, idx);
+            rep.count("check:data-borrowed-by-caller");
+            rep.monitor_runs += 1;
+            if !r.is_err() {
+                rep.violate("check-borrowed-data", "with an account's data mutably borrowed by the caller the check must return an error (not panic, not accept)",
+                    serde_json::json!({"borrowed_account_index": idx, "accounts": accepted.len(), "configs": sc.cfgs.iter().map(|e| emit::hex(bytemuck::bytes_of(e))).collect::<Vec<_>>(), "observed": format!("{:?}", r)}).to_string());
+            }
+        }
         for (name, accts) in variants {
             let got = run_check(&accts, &sc.w.ix, &sc.w.pid, &sc.tlv);
             rep.count(name);
@@ -955,10 +1073,21 @@ fn ml_reload(buf: &[u8], t: usize) -> Res<Vec<ExtraAccountMeta>> {
 }
 fn rand_extra(rng: &mut Rng) -> ExtraAccountMeta {
     let mut b = [0u8; 35];
-    for x in b.iter_mut() {
-        *x = rng.byte();
+    match rng.below(10) {
+        0 => {} // all zero: the system program, read-only, not a signer
+        1 => { b[0] = 1; b[1] = 3; b[2] = rng.below(4) as u8; } // a short-seed PDA config: zero from byte 3 on
+        2 => { for x in b.iter_mut() { *x = 0xff; } }
+        _ => { for x in b.iter_mut() { *x = rng.byte(); } }
     }
     raw_extra(&b)
+}
+/// the entry is allocated first (zeroed: a list of no configs with room for k) and filled by a later update
+fn ml_prealloc(buf: &mut [u8], t: usize, k: usize) -> Res<()> {
+    catch(|| -> Result<(), ProgramError> {
+        let mut st = spl_type_length_value::state::TlvStateMut::unpack(buf)?;
+        with_mtag!(t, T, st.alloc::<T>(4 + 35 * k, false))?;
+        Ok(())
+    })
 }
 
 pub fn run_c12(ctx: &Ctx) -> Report {
@@ -1003,6 +1132,9 @@ pub fn run_c12(ctx: &Ctx) -> Report {
         let mut buf = vec![0u8; n];
         let init_bytes = buf.clone();
         let mut oracle: Vec<(usize, Vec<ExtraAccountMeta>)> = Vec::new();
+        // value length of entries that were pre-allocated with more room than their list needs
+        let mut roomy: std::collections::HashMap<usize, usize> = std::collections::HashMap::new();
+        let mut coq_ok = true;
         let mut items: Vec<String> = Vec::new();
         let nops = rng.range(1, 9) as usize;
         let mut successes = 0;
@@ -1010,8 +1142,24 @@ pub fn run_c12(ctx: &Ctx) -> Report {
             let extra_tag = if rng.chance(1, 6) { 1 } else { 0 };
             let t = rng.below(ntags as u64 + extra_tag) as usize % 4;
             let before = buf.clone();
-            let used: usize = oracle.iter().map(|(_, v)| 16 + 35 * v.len()).sum();
+            let used: usize = oracle.iter().map(|(x, v)| 12 + roomy.get(x).copied().unwrap_or(4 + 35 * v.len())).sum();
             match rng.below(5) {
+                4 if !big && rng.chance(1, 2) => {
+                    // pre-allocation through the TLV API, outside init/update
+                    let kk = rng.below(4) as usize;
+                    let r = ml_prealloc(&mut buf, t, kk);
+                    let want_ok = !oracle.iter().any(|(x, _)| *x == t) && used + 16 + 35 * kk <= n;
+                    rep.count(if r.is_ok() { "prealloc:ok" } else { "prealloc:err" });
+                    if r.is_ok() != want_ok || r.is_panic() || (r.is_err() && buf != before) {
+                        rep.violate("prealloc-result", "allocating a list entry directly must succeed iff the instruction has no entry yet and it fits (and change nothing otherwise)",
+                            serde_json::json!({"tag": t, "room_for": kk, "buffer_len": n, "observed": format!("{:?}", r)}).to_string());
+                    }
+                    if r.is_ok() {
+                        oracle.push((t, vec![]));
+                        roomy.insert(t, 4 + 35 * kk);
+                    }
+                    coq_ok = false;
+                }
                 0 | 1 => {
                     let l = if rng.chance(1, 4) { ((n.saturating_sub(used + 16)) / 35).min(8) + rng.below(2) as usize } else { lens.get(t).copied().unwrap_or(2) };
                     let ms: Vec<ExtraAccountMeta> = (0..l).map(|_| rand_extra(&mut rng)).collect();
@@ -1037,12 +1185,13 @@ pub fn run_c12(ctx: &Ctx) -> Report {
                 }
                 2 | 3 => {
                     let cur = oracle.iter().find(|(x, _)| *x == t).map(|(_, v)| v.len()).unwrap_or(0);
-                    let l = match rng.below(5) { 0 => cur, 1 => cur + 1, 2 => cur.saturating_sub(1), 3 => 0, _ => rng.below(8) as usize };
+                    let cur_vlen = roomy.get(&t).copied().unwrap_or(4 + 35 * cur);
+                    let l = match rng.below(6) { 0 => cur, 1 => cur + 1, 2 => cur.saturating_sub(1), 3 => 0, 4 => (cur_vlen - 4) / 35, _ => rng.below(8) as usize };
                     let ms: Vec<ExtraAccountMeta> = (0..l).map(|_| rand_extra(&mut rng)).collect();
                     let r = ml_update(&mut buf, t, &ms);
                     rep.count(if r.is_ok() { "update:ok" } else { "update:err" });
                     let exists = oracle.iter().any(|(x, _)| *x == t);
-                    let want_ok = exists && used - (16 + 35 * cur) + 16 + 35 * l <= n;
+                    let want_ok = exists && used - (12 + cur_vlen) + 16 + 35 * l <= n;
                     let det = || serde_json::json!({"op": "update", "tag": t, "list_len": l, "buffer_len": n, "lists_before": oracle.iter().map(|(x, v)| (x, v.len())).collect::<Vec<_>>(), "observed": format!("{:?}", r)}).to_string();
                     if r.is_panic() {
                         rep.violate("ml-panic", "update panicked", det());
@@ -1058,6 +1207,7 @@ pub fn run_c12(ctx: &Ctx) -> Report {
                                 *v = ms.clone();
                             }
                         }
+                        roomy.remove(&t);
                         successes += 1;
                     }
                     if to_coq {
@@ -1109,7 +1259,7 @@ pub fn run_c12(ctx: &Ctx) -> Report {
                 rep.case(format!("CMl {} [MInit 3 {} {} {}] {}", emit::blob(&bad), e_extras(&ms), r1.emit(|_| "tt".into()), cksum(&fin1), emit::blob(&fin1)), false);
             }
         }
-        if to_coq {
+        if to_coq && coq_ok {
             rep.case(format!("CMl {} [\n  {}\n ] {}", emit::blob(&init_bytes), items.join(";\n  "), emit::blob(&buf)), successes >= 1);
         } else {
             rep.monitor_case(k as u64, successes >= 1);
